@@ -269,7 +269,9 @@ STR_POOL = ["", "a", "abc", "true", "null", "1", "0", " ", "a b", "\u00e9", "e\u
             "A", "a ", " a", "aa", "key", "Key", "KEY", "x_1", "_", "_x", "camelCase", "with-dash", "with.dot", "0x10"]
 KEY_POOL = ["a", "b", "c", "name", "value", "items", "x_1", "_", "_y", "A", "a ", "aa", "Key", "key", "\u00e9", "e\u0301",
             "\u65e5\u672c", "\U0001F431", "", " ", "1", "01", "true", "false", "null", "in", "as", "for", "with-dash", "with.dot",
-            "a\"b", "a\\b", "a\nb", "\x00", "\U0010FFFF", "has", "size", "map", "type", "int", "jq", "doc", "k k"]
+            "a\"b", "a\\b", "a\nb", "\x00", "\U0010FFFF", "has", "size", "map", "type", "int", "jq", "doc", "k k",
+            # keys that exercise CEL string-literal decoding when written as ["key"]: backslashes, quotes, escape look-alikes spelled literally
+            "C:\\temp", "\\", "\\\\", "a\\nb", "\\u0041", "\\x41", "\\101", "tab\there", "q\"uote", "it's", "\\'", "\\\"", "end\\", "\\U0001F431", "a\\\\b"]
 
 
 def gen_str(rng: random.Random) -> str:
@@ -366,12 +368,42 @@ def style_path(rng: random.Random, p: Tuple) -> List[List[Any]]:
     for tag, a in p:
         if tag == "k" and IDENT.match(a) and a not in RESERVED and rng.random() < 0.6:
             out.append(["f", a])
+        elif tag == "k":
+            out.append([tag, a, rng.choice(["u", "n", "n", "s", "r"])])
         else:
             out.append([tag, a])
     return out
 
 
-def cel_string(s: str) -> str:
+def cel_string(s: str, style: str = "u") -> str:
+    """a CEL string literal for `s`.
+    style "u": everything but plain ASCII as \\uXXXX / \\UXXXXXXXX in double quotes (independent of the escape table);
+    style "n": the natural spelling — `\\\\` for a backslash, `\\"` for the quote, \\n \\r \\t \\a \\b \\f \\v, other printable characters
+               (incl. non-ASCII) verbatim, remaining controls as \\xHH — in double quotes;
+    style "s": as "n" in single quotes (`\\'` escaped, `"` verbatim);
+    style "r": a raw literal r"..." / r'...' when the text allows it (no newline, not both quote kinds, no control characters),
+               else style "n"."""
+    if style == "r":
+        if all(ch >= " " and ch != "\x7f" for ch in s) and not ('"' in s and "'" in s) and not s.endswith("\\"):
+            q = "'" if '"' in s else '"'
+            return "r" + q + s + q
+        style = "n"
+    if style in ("n", "s"):
+        q = '"' if style == "n" else "'"
+        named = {"\\": "\\\\", "\n": "\\n", "\r": "\\r", "\t": "\\t", "\a": "\\a", "\b": "\\b", "\f": "\\f", "\v": "\\v"}
+        out = [q]
+        for ch in s:
+            o = ord(ch)
+            if ch == q:
+                out.append("\\" + q)
+            elif ch in named:
+                out.append(named[ch])
+            elif o < 32 or o == 127:
+                out.append("\\x%02x" % o)
+            else:
+                out.append(ch)
+        out.append(q)
+        return "".join(out)
     out = ['"']
     for ch in s:
         o = ord(ch)
@@ -387,18 +419,18 @@ def cel_string(s: str) -> str:
 
 def path_expr(path: List[List[Any]]) -> str:
     e = "doc"
-    for tag, a in path:
+    for tag, a, *st in path:
         if tag == "f":
             e += "." + a
         elif tag == "k":
-            e += "[" + cel_string(a) + "]"
+            e += "[" + cel_string(a, st[0] if st else "u") + "]"
         else:
             e += f"[{a}]"
     return e
 
 
 def navigate(d: Any, path: List[List[Any]]) -> Tuple[bool, Any]:
-    for tag, a in path:
+    for tag, a, *_ in path:
         try:
             if tag in ("f", "k"):
                 if type(d) is not dict:
@@ -573,6 +605,11 @@ class C15(Prop):
                 p = list(style_path(rng, rng.choice(paths)))
                 p[-1] = rng.choice([["k", "no such key"], ["x", 99], ["f", "nosuch"]])
                 cases.append({"kind": "nav", "doc": d, "path": p, "runner": rng.choice("IC")})
+        # every key of the pool through ["key"] in every literal style (u: \\u escapes, n: natural escapes, s: single quotes, r: raw)
+        pool_doc = {k: i for i, k in enumerate(KEY_POOL)}
+        for i, k in enumerate(KEY_POOL):
+            for st in "unsr":
+                cases.append({"kind": "nav", "doc": pool_doc, "path": [["k", k, st]], "runner": "IC"[(i + ord(st)) % 2]})
         for i in range(250 if quick else 5000):
             cases.append({"kind": "enc", "pv": gen_pv(rng, rng.choice([0, 0, 1, 2, 3]))})
         for n in list(range(0, 14)) + [31, 32, 33, 57, 58, 255, 256]:
@@ -641,7 +678,7 @@ class C15(Prop):
         if k == "ladder":
             return "ladder " + c["cls"]
         if k == "nav":
-            steps = " ".join((f"{t}:{enc_str(a)}" if t in ("f", "k") else f"x:{a}") for t, a in c["path"])
+            steps = " ".join((f"{t}:{enc_str(a)}" if t in ("f", "k") else f"x:{a}") for t, a, *_ in c["path"])
             return "nav " + json_tokens(c["doc"]) + (" " + steps if steps else "")
         return None
 
